@@ -375,6 +375,19 @@ theorem reweight_store_eq_updateStore (w : List K) (f : Nat → K) (ss : List (M
   | nil => rfl
   | cons m ms ih => simp [ih, updq, upd]
 
+/-- composed: on a store whose new column is the density table's (`col` holds `f id` for every stored identifier, `cq · cj` lists the
+same densities in store order) the source's re-weighting sequence returns the columns of what the model's `updateStore` returns —
+the step `meta_invariant` is proved about -/
+theorem reweight_store_source_eq_updateStore (w : List K) (f : Nat → K) (col : List (Nat × K)) (ss : List (MS K)) (cq cj : List K)
+    (hq : cq.length = ss.length) (hj : cj.length = ss.length) (hne : ss ≠ [])
+    (hcol : List.zipWith (· * ·) cq cj = ss.map (fun m => f m.id))
+    (h : ∀ m ∈ ss, lookup col m.id = some (f m.id) ∧ m.row.length + 1 = w.length) :
+    updateStore w col ss = .ok (ss.map (upd w f)) ∧
+    Gen.MetaTx.reweight_store (PyDict.ofList (-1) w) w.length (ss.map (·.row)) (ss.map (·.U)) cq cj
+      = .ok ((ss.map (upd w f)).map (·.row), (ss.map (upd w f)).map (·.Q), (ss.map (upd w f)).map (·.W)) := by
+  refine ⟨updateStore_eq w col f ss h, ?_⟩
+  rw [reweight_store_source_eq_model w ss cq cj hq hj hne (fun m hm => (h m hm).2), hcol, reweight_store_eq_updateStore]
+
 /-- the error branch: a store whose rows already hold the current proposal's column is refused with `ValueError`
 (the model's `updateSample` returns `valueErr` for such a row) -/
 theorem reweight_store_source_already_updated (w : List K) (m : MS K) (ms : List (MS K)) (cq cj : List K)
